@@ -34,11 +34,11 @@ def parseMomSteps (s : String) : Option (List MomStep) :=
     | _ => none
 
 /-- Check one run against the rule. Returns the failed clause names. -/
-def checkMomRun (sat : Bool) (n : Nat) (decay ratio : Rat) (steps : List MomStep) : List String :=
+def checkMomRun (sat : Bool) (n : Nat) (decay ratio pm : Rat) (steps : List MomStep) : List String :=
   let mids : List Rat := steps.map fun s => mkRat s.mid2 2
   let ms := Momentum.signals decay mids
   ((steps.zip ms).zipIdx.flatMap fun ((s, m), i) =>
-    let e := Momentum.expected sat n ratio m
+    let e := Momentum.expected sat n ratio pm m
     (if i == 0 && (s.mb + s.ms + s.lb + s.ls) != 0 then [s!"first_step_must_not_trade@{i}"] else []) ++
     (if m > 0 && (s.ms != 0 || s.ls != 0) then [s!"sells_with_positive_momentum@{i}"] else []) ++
     (if m < 0 && (s.mb != 0 || s.lb != 0) then [s!"buys_with_negative_momentum@{i}"] else []) ++
@@ -50,17 +50,19 @@ def checkMomRun (sat : Bool) (n : Nat) (decay ratio : Rat) (steps : List MomStep
 
 def handleMom (toks : List String) : List String × List String :=
   match toks with
-  | [id, sat, steps, mirror, _kind, tick, _seed, n, decay, ratio, _demand, _scale, _pc, _path] =>
-    match (val n).toNat?, parseRat (val decay), parseRat (val ratio), (val tick).toNat? with
-    | some n, some decay, some ratio, some tick =>
+  | [id, sat, steps, mirror, _kind, tick, _seed, n, decay, ratio, demand, _scale, _pc, _path, offset] =>
+    match (val n).toNat?, parseRat (val decay), parseRat (val ratio), (val tick).toNat?, parseRat (val demand), (val offset).toNat? with
+    | some n, some decay, some ratio, some tick, some demand, some offset =>
+      -- saturated runs use a scale so large that tanh is exactly 1: the market-order probability is demand / n
+      let pm : Rat := demand / (n : Rat)
       let sat := val sat == "1"
       let tail := s!"tr=1 op=momentum_{id}"
       match parseMomSteps (val steps), parseMomSteps (val mirror) with
       | some a, some b =>
-        let fa := checkMomRun sat n decay ratio a
-        let fb := checkMomRun sat n decay ratio b
-        -- mirrored mids: mid_a + mid_b = 2 · 500 · tick  (in doubled units: 2000 · tick)
-        let mirrored := a.length == b.length && (a.zip b).all fun (x, y) => x.mid2 + y.mid2 == 2000 * tick
+        let fa := checkMomRun sat n decay ratio pm a
+        let fb := checkMomRun sat n decay ratio pm b
+        -- mirrored mids: mid_a + mid_b = 2 · (offset + 500) · tick  (in doubled units: (2000 + 4·offset) · tick)
+        let mirrored := a.length == b.length && (a.zip b).all fun (x, y) => x.mid2 + y.mid2 == (2000 + 4 * offset) * tick
         let fm := if mirrored && !((a.zip b).all fun (x, y) => x.mb == y.ms && x.ms == y.mb && x.lb == y.ls && x.ls == y.lb)
                   then ["mirrored_path_flow_not_mirrored"] else []
         let fails := fa ++ fb.map (· ++ "(mirror)") ++ fm
@@ -69,7 +71,7 @@ def handleMom (toks : List String) : List String × List String :=
          ["mom:run"] ++ (if sat then ["mom:saturated"] else ["mom:unsaturated"]) ++ (if mirrored then ["mom:mirror_compared"] else [])
            ++ (if trades then ["mom:with_orders"] else []))
       | _, _ => ([s!"A C17 {id} 0 agent_aborted {tail}"], ["mom:abort"])
-    | _, _, _, _ => ([s!"BAD mom params {toks}"], [])
+    | _, _, _, _, _, _ => ([s!"BAD mom params {toks}"], [])
   | _ => ([s!"BAD mom line {toks.length}"], [])
 
 end Bourse.Driver
